@@ -248,6 +248,29 @@ def gen_cases(seed, n, opts):
         gen.touch_objective(c)
         c["calls"] = gen_calls(rng, c)
         c["id"] = "C10-%d-%d" % (seed, i)
+        if i % 3 == 2 and "fixed" in c.get("T", {}):
+            # the horizon is a user-declared variable (ocp.set_T(ocp.variable())) with a positive guess given at a random
+            # position among the guesses declared before transcription (own random stream: the other cases stay as they were)
+            rng2 = random.Random(seed * 7919 + i)
+            if rng2.random() < 0.6:
+                # no guess after the first transcription (a later guess re-applies every guess and would hide what the first
+                # application did)
+                for cc in c["calls"]:
+                    cc["after"] = False
+            gslots = sum(d["rows"] * d["cols"] for d in c["vars"] if d.get("grid", "") == "")
+            c["vars"] = c["vars"] + [{"rows": 1, "cols": 1, "grid": ""}]
+            c["T"] = {"var": gslots}
+            before = [k for k, cc in enumerate(c["calls"]) if not cc["after"]]
+            pos = rng2.randint(0, len(before))
+            c["calls"].insert(pos, {"obj": ["v", len(c["vars"]) - 1], "g": "GV", "slot": gslots, "len": 1, "form": "const",
+                                    "value": jq(rng2.choice([1, 2, Fraction(3, 2), Fraction(5, 2)])), "after": False})
+            if rng2.random() < 0.8:
+                # ... and a time-dependent guess declared AFTER it (evaluated on the grid of the guessed horizon)
+                xs = [o_ for o_ in objects(c) if o_["g"] in (("GU",) if c["method"]["kind"] == "SS" else ("GX", "GU"))]
+                if xs:
+                    o_ = rng2.choice(xs)
+                    c["calls"].insert(pos + 1, {"obj": [o_["kind"], o_["idx"]], "g": o_["g"], "slot": o_["slot"], "len": o_["len"],
+                                                "form": "time", "value": [time_expr(rng2) for _ in range(o_["len"])], "after": False})
         out.append((c, []))
     return out
 
